@@ -241,7 +241,7 @@ Scenario(c) ==
   LET P == c.P  L == c.L  d == DegOf(c)
       b == Build(c)
       nm == Len(b.main)  na == Len(b.aux)
-      st == Stream(590, L + nm + 7 * na + (IF c.fam = "pair" THEN c.i * 31 + c.j ELSE c.j))
+      st == Stream(590, L + nm + 7 * na + (CASE c.fam = "pair" -> c.i * 31 + c.j [] c.fam = "each" -> c.i [] OTHER -> c.j))
       dom == TraceDomain(P, L)
       w2 == RootOfUnity(P, Log2(2 * L))
       ncos == IF L <= 32 THEN 2 * L ELSE 12
